@@ -112,3 +112,21 @@ def smart(s: str) -> str:
 def smart_always(s: str) -> str:
     """(the settings sheet is cleaned whatever clean_text_values says: the switch itself is read from it)"""
     return s.replace("‘", "'").replace("’", "'").replace("“", '"').replace("”", '"')
+
+
+LEGACY_TYPES = {"image": ["add image prompt", "add photo prompt", "photo"], "audio": ["add audio prompt"], "video": ["add video prompt"],
+                "file": ["add file prompt"], "deviceid": ["imei"]}
+
+
+def legacy_types(form):
+    """the same form with the documented legacy spellings of its type cells ('add image prompt' for image, ...): C13 says they are
+    interchangeable, so a check may convert this spelling and keep judging by the canonical one"""
+    from vf import model
+    twin = model.clone(form)
+    i = 0
+    for n, _ in model.walk(twin["nodes"]):
+        t = n["c"].get("type")
+        if n["k"] == "q" and t in LEGACY_TYPES:
+            n["c"]["type"] = LEGACY_TYPES[t][i % len(LEGACY_TYPES[t])]
+            i += 1
+    return twin if i else form
